@@ -10,13 +10,17 @@
      - upper (str.upper) is idempotent;
      - no token of the document upper-cases to SETS / ASSUMPTIONS / CODONS (the reader leaves such
        a block unconsumed when characters are excluded, the iterator skips it to its END).
-   va / vk select the current (false) or repaired (true) form of the two sites with a recorded
-   finding (Model/C13Model.v, Section Routes); the positive theorems hold for both forms, the
-   `_refuted` ones are about the current form.
+   va / vk (Model/C13Model.v, Section Routes: v_attach, v_keep_label) select between two forms of
+   the TreeList / Tree entry points: false = as found (namespace only handed to the reader through
+   a factory; Tree.get overwrites the tree name), true = repaired (`fix:` commits 3c078def and
+   555dc342 in /repo; the correspondence run detects which form the working tree has).  Theorems
+   quantified over va / vk hold for both forms; `routes_agree_nexus` and `dataset_blocks_concat`
+   are the FULL statements, proved for the repaired form; the `_partial` / `_refuted` pairs record
+   what holds and what fails in the form as found.
    `hypotheses_satisfiable` and the Examples in Proofs/C13Examples.v show they are not vacuous. *)
 From Coq Require Import ZArith List Bool.
 From Coq Require String. Import String.StringSyntax.
-From DV Require Import Model.PyPrims Model.C13Model Proofs.C13Newick Proofs.C13Examples Proofs.C13Statements.
+From DV Require Import Model.PyPrims Model.C13Model Proofs.C13Newick Proofs.C13Examples Proofs.C13Statements Proofs.C13Repaired.
 Import ListNotations.
 Open Scope Z_scope.
 
@@ -90,8 +94,68 @@ Theorem nexus_loops_agree :
 Proof. exact S_nexus_loops_agree. Qed.
 Print Assumptions nexus_loops_agree.
 
+(* neither implementation runs out of the model's fuel (number of tokens + 4) when the statement
+   parser consumes a prefix and does not itself run out: every loop iteration fetches a token or
+   sees the end of the stream, after which every loop guard is false.  (The non-terminating
+   `while token != ';'` of _parse_link_statement is modelled as the explicit result Hang.) *)
+Theorem nexus_fuel_suffices :
+  forall (T : Type) (lower upper : str -> str)
+         (parse_tree : mapper -> tz -> res (option T * mapper * tz))
+         (set_label : T -> option str -> T) (add_comments : T -> list str -> T),
+  (forall m z ot m' z', parse_tree m z = Ok (ot, m', z') -> exists pre, z_toks z = pre ++ z_toks z') ->
+  (forall m z, parse_tree m z <> OutOfFuel) ->
+  forall (nc : nscfg) (ns0 : list str) (d : doc),
+  snd (y_items_from_stream T lower upper parse_tree set_label add_comments nc false
+                           (doc_fuel d) (core_init nc ns0 d) (regs_init nc)) <> OutOfFuel
+  /\ ((forall s, upper (upper s) = upper s) ->
+      (forall t, In t (fst d) -> is_sets_kw (Some (upper (t_text t))) = false) ->
+      forall tlf, nexus_read T lower upper parse_tree set_label add_comments (mkCfg nc tlf) ns0 d <> OutOfFuel).
+Proof. exact S_nexus_fuel. Qed.
+Print Assumptions nexus_fuel_suffices.
+
+
+(* ---- the repaired form (va = true): FULL statements ---- *)
+
+(* TreeList.get / .read is a function of what the iterator does: same trees, same order, same
+   namespace; the same error after the iterator has handed out a prefix *)
+Theorem routes_agree_nexus :
+  forall (T : Type) (lower upper : str -> str)
+         (parse_tree : mapper -> tz -> res (option T * mapper * tz))
+         (set_label : T -> option str -> T) (add_comments : T -> list str -> T),
+  (forall m z ot m' z', parse_tree m z = Ok (ot, m', z') -> exists pre, z_toks z = pre ++ z_toks z') ->
+  (forall s, upper (upper s) = upper s) ->
+  forall (ns0 : list str) (d : doc),
+  (forall t, In t (fst d) -> is_sets_kw (Some (upper (t_text t))) = false) ->
+  let Y := yield_from_files T lower upper parse_tree set_label add_comments Nexus ns0 d in
+  treelist_read T lower upper parse_tree set_label add_comments true Nexus ns0 d
+  = match snd Y with Ok ns => Ok (fst Y, ns) | Err e => Err e | OutOfFuel => OutOfFuel end.
+Proof. exact routes_agree_nexus_repaired_l. Qed.
+Print Assumptions routes_agree_nexus.
+
+(* the concatenation of DataSet.get(taxon_namespace=ns)'s tree lists is TreeList.get's list,
+   errors included.  (DataSet.get WITHOUT a namespace creates a new namespace per TAXA block and is
+   tied by the correspondence run and the oracle only.) *)
+Theorem dataset_blocks_concat :
+  forall (T : Type) (lower upper : str -> str)
+         (parse_tree : mapper -> tz -> res (option T * mapper * tz))
+         (set_label : T -> option str -> T) (add_comments : T -> list str -> T),
+  (forall m z ot m' z', parse_tree m z = Ok (ot, m', z') -> exists pre, z_toks z = pre ++ z_toks z') ->
+  (forall s, upper (upper s) = upper s) ->
+  forall (d : doc),
+  (forall t, In t (fst d) -> is_sets_kw (Some (upper (t_text t))) = false) ->
+  match read_blocks T lower upper parse_tree set_label add_comments Nexus cfg_yield [] d with
+  | Ok (blocks, ns) => treelist_get T lower upper parse_tree set_label add_comments true Nexus d = Ok (concat blocks, ns)
+  | Err e => treelist_get T lower upper parse_tree set_label add_comments true Nexus d = Err e
+  | OutOfFuel => treelist_get T lower upper parse_tree set_label add_comments true Nexus d = OutOfFuel
+  end
+  /\ dataset_get T lower upper parse_tree set_label add_comments Nexus true d
+     = (do r <- read_blocks T lower upper parse_tree set_label add_comments Nexus cfg_yield [] d ;; Ok (fst r)).
+Proof. exact dataset_blocks_concat_repaired_l. Qed.
+Print Assumptions dataset_blocks_concat.
+
+(* ---- both forms ---- *)
 (* the actual routes: TreeList.get / TreeList.read hand the reader a fixed namespace through a
-   factory, Tree.yield_from_files and TreeArray.read ATTACH it.  Whenever the list route
+   factory (form as found), Tree.yield_from_files and TreeArray.read ATTACH it.  Whenever the list route
    succeeds, the iterator is complete and delivers the same trees, in the same order, into the
    same namespace; TreeArray.read gets the iterator's trees from tree_offset on.
    FULL STATEMENT (not provable, see routes_agree_nexus_refuted): "and the list route fails
@@ -111,8 +175,8 @@ Theorem routes_agree_nexus_partial :
 Proof. exact S_routes_agree_nexus. Qed.
 Print Assumptions routes_agree_nexus_partial.
 
-(* the converse fails on the faithful model (and on the implementation: known finding
-   reader-not-attached): a document with two TAXA blocks and LINKed TREES blocks is read by the
+(* in the form as found (va = false) the converse fails on the faithful model (and failed on the
+   implementation until the `fix:` commit 3c078def; finding reader-not-attached): a document with two TAXA blocks and LINKed TREES blocks is read by the
    iterator (2 trees) and by DataSet.get, and refused by TreeList.get *)
 Theorem routes_agree_nexus_refuted :
   exists d : doc,
@@ -201,8 +265,9 @@ Proof. exact S_select_tree_cases. Qed.
 Print Assumptions offset_selection_cases.
 
 (* FULL STATEMENT of "Tree.get(c, k) is the k-th tree of collection c" includes the tree's label.
-   Refuted on the faithful model (and on the implementation: known finding tree-get:label):
-   Tree.get assigns its `label` keyword, None by default, over the name read from the source. *)
+   Refuted in the form as found (vk = false) on the faithful model (and on the implementation until
+   the `fix:` commit 555dc342; finding tree-get:label): Tree.get assigned its `label` keyword, None
+   by default, over the name read from the source.  In the repaired form got_label t = t. *)
 Theorem tree_get_label_refuted :
   exists (d : doc) t t',
     (exists ns, treelist_get sktree (lower_with []) (upper_with []) (sk_parse_tree (lower_with []))
@@ -265,6 +330,7 @@ Print Assumptions shared_namespace_threading.
 Theorem hypotheses_satisfiable :
   (forall m z ot m' z', sk_parse_tree (lower_with []) m z = Ok (ot, m', z') ->
      (exists pre, z_toks z = pre ++ z_toks z') /\ (exists r, m_ns m' = m_ns m ++ r))
+  /\ (forall m z, sk_parse_tree (lower_with []) m z <> OutOfFuel)
   /\ (forall s, upper_with [] (upper_with [] s) = upper_with [] s).
 Proof. exact S_hypotheses_satisfiable. Qed.
 Print Assumptions hypotheses_satisfiable.
